@@ -76,6 +76,35 @@ def run(tier, seed, opens):
                     ok += 1
             except (WalletError, TransactionError, ValueError):
                 ok += 1
+            # scenario: fee bump paid from two change outputs: the first (900) is used up, the rest (100) comes out of the second (300)
+            cases += 1
+            try:
+                from bitcoinlib.transactions import Transaction as _T
+                from bitcoinlib.keys import Key as _K
+                kc = _K(rng.randrange(1, 2 ** 200), network='bitcoinlib_test')
+                tb2 = _T(network='bitcoinlib_test', witness_type='segwit', replace_by_fee=True)
+                tb2.add_input('%064x' % rng.getrandbits(256), 0, keys=[kc], value=100000, witness_type='segwit')
+                tb2.add_output(100000 - 2000 - 1200, _K(rng.randrange(1, 2 ** 200), network='bitcoinlib_test').address())
+                tb2.add_output(900, kc.address(), change=True)
+                tb2.add_output(300, kc.address(), change=True)
+                tb2.fee = 2000
+                tb2.sign()
+                try:
+                    tb2.bumpfee(extra_fee=1000)
+                    err = None
+                except Exception as e:
+                    err = e
+                vals = [o.value for o in tb2.outputs]
+                if any(v < 0 for v in vals):
+                    fail('bumpfee from two change outputs', {'outputs': [96800, 900, 300], 'fee': 2000, 'extra_fee': 1000},
+                         'output values %s%s' % (vals, (' and %s' % type(err).__name__) if err else ''), 'no output is negative')
+                elif err is None and (100000 - sum(vals) != tb2.fee or tb2.fee < 3000):
+                    fail('bumpfee from two change outputs', {'outputs': [96800, 900, 300], 'fee': 2000, 'extra_fee': 1000},
+                         'outputs %s, reported fee %r' % (vals, tb2.fee), 'inputs = outputs + fee, fee raised by at least 1000')
+                else:
+                    ok += 1
+            except (WalletError, TransactionError, ValueError):
+                ok += 1
             # scenario: the wallet's only UTXO is a few hundred satoshi short of outputs + requested fee: the request must fail
             cases += 1
             try:
@@ -257,9 +286,13 @@ def run(tier, seed, opens):
                         ok += 1
                         continue
                     except Exception as e:
-                        # any other exception is still a refusal (no transaction is produced); counted, not reported: e.g. bumpfee can raise
-                        # OverflowError when the extra fee does not fit the change output it is taken from
-                        ok += 1
+                        # any other exception is still a refusal - unless it leaves the wallet's transaction object with a negative output
+                        neg = [o.value for o in t2.outputs if o.value < 0]
+                        if neg:
+                            fail('bumpfee', dict(inp, extra_fee=extra), 'raised %s and left the transaction with output value(s) %s' % (type(e).__name__, neg),
+                                 'no output is negative')
+                        else:
+                            ok += 1
                         continue
                     ops2 = [(i.prev_txid.hex(), i.output_n_int) for i in t2.inputs]
                     tin2 = sum(utxos.get(op, (None,))[0] or 0 for op in set(ops2))
